@@ -4,6 +4,7 @@ package tmstate_test
 
 import (
 	"fmt"
+	"strings"
 	"testing"
 
 	"github.com/gordian-engine/gordian/internal/verifkit"
@@ -38,6 +39,9 @@ func TestVerif_C09_statemachine(t *testing.T) {
 		return
 	}
 	n := r.N(2400, 40000)
+	if strings.HasSuffix(r.Sub, "race") {
+		n = r.N(300, 5000) // the race detector costs 5-10x
+	}
 	r.Parallel(n, run)
 	agg.report(r)
 }
